@@ -467,6 +467,37 @@ def run(ctx):
         ctx.check(okc and nargs <= 1, "R13.6", f, "name-stored-verbatim",
                   "base stores %s as its name, not the declared string itself (%s): the maps and the uniqueness check are keyed by the declared string, so two declarations whose stored names coincide "
                   "are both accepted and one command-line name then denotes two options" % (fmt(init[0]["expr"]), why or "a sub-string / transformed copy"), f, why_ok=fmt(init[0]["expr"]))
+    # ---- R13.11: a group is handed the parser whose map it goes into. Uniqueness across groups is asked of group::parser_ - a group that sits in one parser's
+    # map and points at another parser checks every declaration against the wrong parser's names
+    ctx.rule("R13.11", "back-pointer-matches-owner: wherever a group is constructed into `X.groups_` (emplace / try_emplace with forward_as_tuple(parser, ...)) the parser handed to it is X itself")
+    nbp = 0
+    for g in sorted(prog.fns.values(), key=lambda h: h.id):
+        if not g.has_cfg or not g.file.startswith("/repo/") or "/options/" not in g.file:
+            continue
+        for bid, i, e in g.all_elems():
+            x = e.get("expr")
+            if not isinstance(x, dict):
+                continue
+            for n in walk(x):
+                if not (isinstance(n, dict) and n.get("k") == "call" and short(n.get("name") or "") in ("emplace", "try_emplace", "emplace_hint") and n.get("this") is not None):
+                    continue
+                recv = fmt(ir.unwrap(n["this"])).replace("this->", "")
+                if not (recv == "groups_" or recv.endswith(".groups_") or recv.endswith("->groups_")):
+                    continue
+                owner = "(*this)" if recv == "groups_" else recv[:-len(".groups_")] if recv.endswith(".groups_") else "(*%s)" % recv[:-len("->groups_")]
+                tuples = [m for a in n.get("args", []) for m in walk(a) if isinstance(m, dict) and m.get("k") == "call" and short(m.get("name") or "") in ("forward_as_tuple", "make_tuple", "tie")]
+                handed = None
+                for t in tuples[1:2] or tuples[:1]:
+                    if t.get("args"):
+                        handed = fmt(ir.unwrap(t["args"][0]))
+                if handed is None:
+                    continue
+                nbp += 1
+                norm = lambda z: z.replace("(", "").replace(")", "").replace("*this", "THIS").strip()
+                ctx.check(norm(handed) == norm(owner), "R13.11", g, "back-pointer-matches-owner:%s" % recv,
+                          "%s constructs a group into `%s` but hands it `%s` as its parser: declarations made through that group are checked against another parser's names "
+                          "(its own are never seen - one name can be declared twice with different kinds)" % (short(g.qual), recv, handed), (g, e.get("ln")), why_ok="%s <- %s" % (recv, handed))
+    ctx.need("R13.11", "group constructions", nbp, 2)
     # ---- R13.5
     pc = prog.cls(NS + "parser")
     back = [fl for fl in grp["fields"] if "parser" in fl["type"] and (fl.get("ref") or fl.get("ptr"))]
